@@ -116,7 +116,10 @@ def mk(codes, signed, n, f, dirty_ok=False, **cfg):
         pad = [lo, (1 << (n - 1)) - 1 if signed else (1 << n) - 1]
         if h == 6:
             big = Fxp(np.array([pad[0]] + list(codes) + [pad[1]], dtype=np.int64), signed, n, f, raw=True, **cfg)
-            x = big[1] if len(codes) == 1 else big[1:1 + len(codes)]
+            if len(codes) == 1 and (n + f + codes[0]) % 2:
+                x = list(big)[1] if codes[0] % 3 else [e for e in big][1]      # the element as iteration over the array delivers it
+            else:
+                x = big[1] if len(codes) == 1 else big[1:1 + len(codes)]
         else:
             big = Fxp(np.array([list(codes)], dtype=np.int64), signed, n, f, raw=True, **cfg)
             x = big.flatten()
@@ -313,6 +316,8 @@ def exec_AO(t, ia=False):
             tgt.status['inaccuracy'] = True
         if route == 'config':
             kw = {'op_out': tgt} if kind == 'out' else {'op_out_like': tgt}
+            # a sizing policy on the operand is beside the point when a holder / template decides the format (content-determined)
+            kw['op_sizing'] = ['optimal', 'same', 'largest', 'smallest'][(nx + ny + nt + a[0]) % 4]
             x = mk(a, sx, nx, fx, rounding=r2, overflow=o2, op_method=meth, dirty_ok=True, **kw)
             y = mk(b, sy, ny, fy, rounding=r2, overflow=o2, dirty_ok=True)
             z = OPER[op](x, y)
@@ -320,6 +325,7 @@ def exec_AO(t, ia=False):
             x = mk(a, sx, nx, fx, rounding=r2, overflow=o2, dirty_ok=True)
             y = mk(b, sy, ny, fy, rounding=r2, overflow=o2, dirty_ok=True)
             kw = {'out': tgt} if kind == 'out' else {'out_like': tgt}
+            kw['sizing'] = ['optimal', 'same', 'largest', 'smallest'][(nx + ny + nt + b[0]) % 4]      # (likewise)
             z = FUNCS[op](x, y, method=meth, **kw)
         if kind == 'out' and z is not tgt:
             return ['NOTOUT']
